@@ -61,6 +61,7 @@ package store
 //@   ensures reject_mismatch [C12]: verr == nil && !((version == 1 && writeAsV1) || (version == 2 && !writeAsV1)) ==> err != nil
 
 //@ func Resume
+//@   modifies wn(dataWriter), nrec(idx), all(byCid), all(byMh), all(byDg), all(writes), all(truncs), all(fsize)
 //@   call[io.NewOffsetReadSeeker#1] assert v2_header_follows_the_pragma [C12]: !v1 && ref(arg0) == ref(rw) && arg1 == 11
 //@   call[io.NewOffsetReadSeeker#2] assert v2_scans_the_payload_window [C06,C12]: !v1 && ref(arg0) == ref(dataReader) && arg1 == 0
 //@   call[io.NewOffsetReadSeeker#0] assert v1_scans_the_file_from_its_start [C06,C12]: v1 && ref(arg0) == ref(rw) && arg1 == 0
@@ -77,7 +78,8 @@ package store
 //@   check v2_header_is_cleared_before_scanning [C06,C12]: err == nil && !v1 ==> mark(rw) == 1
 //@   call[Seeker.Seek#0] assert to_the_first_section [C06,C12]: ref(arg0) == ref(v1r) && arg1 == wrap_s64(hsize) && arg2 == 0
 //@   let _, serr := call[OffsetWriteSeeker.Seek#0]
-//@   check length_error_is_fatal [C06,C12]: lerr != nil && lerr != io.EOF ==> err != nil
+//@   check length_error_is_fatal [C06,C12]: executed("varint.ReadUvarint#0") && lerr != nil && lerr != io.EOF ==> err != nil
+//@   check a_clean_end_resumes_and_positions_the_writer [C06,C12]: executed("varint.ReadUvarint#0") && (lerr == io.EOF || (lerr == nil && length == 0 && zeroLengthSectionAsEOF)) ==> err == serr
 //@   call[OffsetWriteSeeker.Seek#0] assert reached_only_from_a_clean_end [C06,C12]: lerr == io.EOF || (lerr == nil && length == 0 && zeroLengthSectionAsEOF)
 //@   call[fmt.Errorf#4] assert refuses_only_a_zero_length_section_it_was_not_told_to_accept [C12]: lerr == nil && length == 0 && !zeroLengthSectionAsEOF
 //@   loop[0] step continues_only_after_a_real_section [C06,C12]: lerr == nil && length != 0
